@@ -3,6 +3,7 @@
 Every choice is drawn from one random.Random in a fixed order; the result is a
 plain JSON-able dict from which the run can be re-executed without the PRNG.
 """
+import copy
 import random
 import string
 
@@ -12,7 +13,7 @@ TOUCHED = {'template_input': ('RUN2D', 'RUN1D'),
            'window_score': ('PHOTO_CALIB',),
            'window_read': ('PHOTO_CALIB',)}
 
-KNOBS = ['OMP_NUM_THREADS', 'OPENBLAS_NUM_THREADS', 'MKL_NUM_THREADS', 'NUMEXPR_NUM_THREADS', 'MPLBACKEND',
+KNOBS = ['DISPLAY', 'WAYLAND_DISPLAY', 'OMP_NUM_THREADS', 'OPENBLAS_NUM_THREADS', 'MKL_NUM_THREADS', 'NUMEXPR_NUM_THREADS', 'MPLBACKEND',
          'PYDL_DEBUG', 'IDLUTILS_DIR', 'IDLSPEC2D_DIR', 'PHOTO_DATA', 'PHOTO_SKY', 'PHOTO_SWEEP',
          'BOSS_PHOTOOBJ', 'SPECTRO_DATA', 'RUN2D_SAVE', 'PHOTO_CALIB_SAVE', 'LC_NUMERIC']
 
@@ -44,6 +45,8 @@ def gen_world(r, tier):
     w['clock'] = {'start': start,
                   'ticks': [r.choice([0.0, 0.001, 0.25, 0.5, 1.0, 3600.0]) for _ in range(4)]}
     w['plots'] = 'agg' if r.random() < (0.25 if tier == 'thorough' else 0.08) else 'stub'
+    # which matplotlib backend is configured in this process: a file backend, or something else
+    w['mpl_backend'] = 'agg' if (w['plots'] == 'agg' or r.random() < 0.8) else 'module://pydlsim.world.nullbackend'
     nb = r.randint(10, 20)
     by = {}
     for _ in range(nb):
@@ -218,6 +221,10 @@ def _touched_state(r, same_as=None, p_unset=0.32):
         return same_as
     if u < 0.57:
         return ''                      # set, but empty: a falsy "set" state
+    if u < 0.70:
+        # values on which common "harmless" normalisations are not the identity
+        return r.choice(['/data/calib/', '/a//b', '/x/./y', './rel/', ' padded ', 'MixedCase', 'with space',
+                         'v5_7_0 ', '~/calib', '$HOME/calib', 'C:\\calib\\', 'caf\u00e9'])
     if u < 0.62 and same_as is not None and same_as.upper() != same_as:
         return same_as.upper()         # equal to the parameter-file value up to case
     return 'orig_' + _name(r, 4)
@@ -232,11 +239,19 @@ def _fault_draw(r, tier):
             'exc': r.choice(inject.OSERROR_FAMILY + inject.OTHER_FAMILY)}
 
 
-def gen_invocation(r, w, tier, j, stratum=0):
+def gen_invocation(r, w, tier, j, stratum=0, force=None):
     u = r.random()
+    if force == 'template_input':
+        u = 0.0
     sp = w['spectro']
     if u < 0.55:
-        inv = {'entry': 'template_input', 'par': gen_par(r, w),
+        par = gen_par(r, w)
+        if j > 0 and r.random() < 0.3:
+            # the parameter file was edited between two invocations: another reduction version
+            alt = r.choice([v for v in RUN_VALUES if v != sp['run2d']])
+            par['pairs'] = [[a, (alt if a in ('run2d', 'run1d') else b)] for a, b in par['pairs']]
+            par['variant'] = par['variant'] + '+alt_run'
+        inv = {'entry': 'template_input', 'par': par,
                'flux': r.random() < 0.3, 'verbose': r.random() < 0.2}
         env = {'RUN2D': _touched_state(r, sp['run2d']), 'RUN1D': _touched_state(r, sp['run1d'])}
         # which of the two redux roots this parameter file needs depends on run2d
@@ -281,9 +296,48 @@ def gen_invocation(r, w, tier, j, stratum=0):
     return inv
 
 
+def _healthy_template(r, w, tier, j):
+    """A template_input invocation that is set up to get as far as it can: valid galaxy
+    parameter file, all required variables present, no dump file yet."""
+    for _ in range(50):
+        inv = gen_invocation(r, w, tier, j, force='template_input')
+        if inv['par']['variant'] == 'valid' and dict(inv['par']['pairs'])['object'] == 'gal':
+            break
+    for k in ('BOSS_SPECTRO_REDUX', 'SPECTRO_REDUX', 'SPECTRO_MATCH', 'PHOTO_RESOLVE'):
+        inv['env'][k] = 'ok'
+    inv['dump'] = 'absent'
+    return inv
+
+
 def generate(seed, tier):
     r = random.Random(seed)
     w = gen_world(r, tier)
-    n = r.choice([1, 1, 2, 2, 3, 4])
-    invs = [gen_invocation(r, w, tier, j, stratum=seed % 997) for j in range(n)]
+    scenario = r.random()
+    if scenario < 0.2:
+        # durable state carried from one invocation to the next: a run that gets as far as
+        # writing its dump file and outputs, then another run over the same workspace with
+        # the same, an edited (other reduction version) or another parameter file
+        for pl in w['spectro']['plates']:
+            for k in ('damage', 'photo_damage', 'z_damage', 'no_coeff'):
+                pl.pop(k, None)
+            pl['masks'] = 'u8'
+        first = _healthy_template(r, w, tier, 0)
+        first['fault'] = None if r.random() < 0.7 else first['fault']
+        invs = [first]
+        for j in range(1, r.choice([2, 2, 3])):
+            inv = gen_invocation(r, w, tier, j, force='template_input')
+            inv['dump'] = 'keep'
+            u = r.random()
+            if u < 0.35:
+                inv['par'] = copy.deepcopy(first['par'])
+            elif u < 0.75:
+                inv['par'] = copy.deepcopy(first['par'])
+                alt = r.choice([v for v in RUN_VALUES if v != w['spectro']['run2d']])
+                which = r.choice([('run2d', 'run1d'), ('run2d',), ('run1d',)])
+                inv['par']['pairs'] = [[a, (alt if a in which else b)] for a, b in inv['par']['pairs']]
+                inv['par']['variant'] = 'valid+alt_run'
+            invs.append(inv)
+    else:
+        n = r.choice([1, 1, 2, 2, 3, 4])
+        invs = [gen_invocation(r, w, tier, j, stratum=seed % 997) for j in range(n)]
     return {'property': 'C20', 'seed': seed, 'tier': tier, 'world': w, 'invocations': invs}
